@@ -21,9 +21,12 @@ PLOT_ONLY = {tables.FP + "._plot_training_data", tables.CFP + "._plot_training_d
 
 
 def dict_values(f):
+    """{key: value expression} of the stores into the dictionary the function returns."""
     out = {}
+    rets = [n for n in walk_no_nested(f.node) if isinstance(n, ast.Return) and isinstance(n.value, ast.Name)]
+    dname = rets[0].value.id if len(rets) == 1 else "d"
     for n in walk_no_nested(f.node):
-        if isinstance(n, ast.Assign) and isinstance(n.targets[0], ast.Subscript) and isinstance(n.targets[0].slice, ast.Constant) and src(n.targets[0].value) == "d":
+        if isinstance(n, ast.Assign) and isinstance(n.targets[0], ast.Subscript) and isinstance(n.targets[0].slice, ast.Constant) and src(n.targets[0].value) == dname:
             out[n.targets[0].slice.value] = n.value
     return out
 
@@ -75,7 +78,9 @@ def run(ctx):
                 ctx.ob("R-PROV", "C05.1", ins_dict_f, f"[{cfg}] result['{key}'] and FlowSampler.{attr} read the same, existing state object", ok, f"dict: {d_path} ; sampler: {s_path}")
             # weights: result vs. what the posterior samples were drawn with
             dps = ctx.fn(INS + ".draw_posterior_samples")
-            lw = [n for n in walk_no_nested(dps.node) if isinstance(n, ast.Assign) and src(n.targets[0]) == "log_w"]
+            wcall = [c for c in walk_no_nested(dps.node) if isinstance(c, ast.Call) and call_name(c) == "draw_posterior_samples"]
+            wname = next((src(k.value) for c in wcall for k in c.keywords if k.arg == "log_w"), "log_w")
+            lw = [n for n in walk_no_nested(dps.node) if isinstance(n, ast.Assign) and src(n.targets[0]) == wname]
             dpa = FA(dps)
             pick = None
             for a in lw:
